@@ -4,12 +4,19 @@
    A child's size requirement is a [dim] (min, max, preferred, weight) as
    produced by Dimension.__init__ ([valid]: 0 <= min <= preferred <= max,
    weight >= 0).  [divide fuel done ds avail] is the body shared by
-   HSplit._divide_heights and VSplit._divide_widths on the dimensions [ds]
-   of _all_children; [done] is get_app().is_done; its result is [Sizes l],
-   [TooSmall] (the function returned None), [NoWeights] (ValueError from
-   take_using_weights) or [OutOfFuel] (a loop ran more than [fuel]
-   iterations).  [mins/prefs/maxs/weights ds] are the component lists,
-   [le_all a b] is the pointwise <=, [zsum] the sum. *)
+   HSplit._divide_heights and VSplit._divide_widths (as in /repo now) on
+   the dimensions [ds] of _all_children; [done] is get_app().is_done; its
+   result is [Sizes l], [TooSmall] (the function returned None) or
+   [OutOfFuel] (a loop ran more than [fuel] iterations).
+   [mins/prefs/maxs/weights ds] are the component lists, [le_all a b] is
+   the pointwise <=, [zsum] the sum.  [tgts ws caps start] is the list
+   that has caps[k] where ws[k] > 0 and start[k] elsewhere;
+   [reach_pref ds] / [reach_max ds] = the total with the weighted children
+   at preferred / max and the weight-0 children at min.
+
+   [divide_pinned] is the function as it was before commit 8a80803
+   ("fix: HSplit/VSplit hung or raised ValueError with zero-weight
+   children"); the _pinned theorems characterise exactly where it hung. *)
 From Coq Require Import ZArith List Bool.
 From PTK Require Import Lib.Sx Model.C12_Divide Gen.C12_Huge
      Proofs.C12_Safety Proofs.C12_Gen Proofs.C12_Termination Proofs.C12_Fixed.
@@ -35,87 +42,6 @@ Theorem C12_all_children_valid : forall align pad cs,
 Proof. exact all_children_valid. Qed.
 Print Assumptions C12_all_children_valid.
 
-(* 'too small' exactly when the minimums do not fit (any fuel, any weights). *)
-Theorem C12_too_small : forall fuel done ds avail,
-  Forall valid ds ->
-  (divide fuel done ds avail = TooSmall <-> ds <> [] /\ zsum (mins ds) > avail).
-Proof. exact divide_too_small. Qed.
-Print Assumptions C12_too_small.
-
-(* Whenever sizes are returned: one per child, each within its own min..max,
-   total within the available size; if the preferred sizes fit every child
-   has at least its preferred size, and if they do not fit nobody gets more
-   than preferred (preferred before extra); and the space is used as far as
-   the children can grow: the total is exactly min(avail, sum of max)
-   (when the app is done only the first loop runs: min(avail, sum of
-   preferred), at least the sum of min). *)
-Theorem C12_sizes : forall fuel done ds avail l,
-  ds <> [] -> Forall valid ds -> divide fuel done ds avail = Sizes l ->
-  length l = length ds /\
-  le_all (mins ds) l /\ le_all l (maxs ds) /\
-  zsum l <= avail /\
-  (zsum (prefs ds) <= avail -> le_all (prefs ds) l) /\
-  (avail <= zsum (prefs ds) -> le_all l (prefs ds)) /\
-  (done = false -> zsum l = Z.min avail (zsum (maxs ds))) /\
-  (done = true -> zsum l = Z.max (zsum (mins ds)) (Z.min avail (zsum (prefs ds)))).
-Proof.
-  intros fuel done ds avail l H1 H2 H3.
-  destruct (divide_good fuel done ds avail l H1 H2 H3); repeat split; assumption.
-Qed.
-Print Assumptions C12_sizes.
-
-(* Termination.  [reach_pref]/[reach_max] = what the loops can reach when
-   weight-0 children stay at their minimum.  On these inputs the division
-   returns within [divide_fuel] iterations per loop ... *)
-Theorem C12_terminates_on_domain : forall done ds avail fuel,
-  Forall valid ds ->
-  Z.min avail (zsum (prefs ds)) <= reach_pref ds ->
-  (done = true \/ Z.min avail (zsum (maxs ds)) <= reach_max ds) ->
-  (divide_fuel ds avail <= fuel)%nat ->
-  divide fuel done ds avail <> OutOfFuel.
-Proof. intros done ds avail fuel H1 H2 H3 H4. apply divide_terminates; [assumption|split; assumption|assumption]. Qed.
-Print Assumptions C12_terminates_on_domain.
-
-(* ... in particular whenever no child has weight 0 but some room to grow *)
-Example C12_domain_inhabited :
-  in_domain false [mkdim 1 3 2 1; mkdim 0 HUGE 1 2; mkdim 2 2 2 0] 12 /\
-  divide (divide_fuel [mkdim 1 3 2 1; mkdim 0 HUGE 1 2; mkdim 2 2 2 0] 12) false
-         [mkdim 1 3 2 1; mkdim 0 HUGE 1 2; mkdim 2 2 2 0] 12 = Sizes [3; 7; 2].
-Proof. split; [split; [|right]; vm_compute; discriminate|vm_compute; reflexivity]. Qed.
-Print Assumptions C12_domain_inhabited.
-
-(* ... and on every other input with fitting minimums and a weighted child it
-   never returns, whatever the fuel. *)
-Theorem C12_hangs_outside_domain : forall done ds avail,
-  Forall valid ds -> zsum (mins ds) <= avail ->
-  (exists c, 0 < nth c (weights ds) 0) ->
-  ~ (Z.min avail (zsum (prefs ds)) <= reach_pref ds /\
-     (done = true \/ Z.min avail (zsum (maxs ds)) <= reach_max ds)) ->
-  forall fuel, divide fuel done ds avail = OutOfFuel.
-Proof. exact divide_hangs. Qed.
-Print Assumptions C12_hangs_outside_domain.
-
-(* The property text ("for ... integer weights including zero ... dividing
-   terminates") is therefore FALSE for the code as it is (finding C12-F1,
-   DESIGN F4): HSplit([Window(height=D(min=0,max=5,preferred=5,weight=0)),
-   Window(height=D(min=0,max=0,preferred=0,weight=1))]) at height 10. *)
-Theorem C12_terminates_refuted :
-  ~ (forall ds avail, Forall valid ds -> exists fuel, divide fuel false ds avail <> OutOfFuel).
-Proof.
-  intro H. destruct divide_f4_hangs as (Hv & Hh).
-  destruct (H f4_dims 10 Hv) as (fuel & Hf). apply Hf. apply Hh.
-Qed.
-Print Assumptions C12_terminates_refuted.
-
-(* ... and with only weight-0 children it raises instead of returning sizes
-   (finding C12-F2). *)
-Theorem C12_zero_weights_raise : forall fuel done ds avail,
-  Forall valid ds -> ds <> [] -> zsum (mins ds) <= avail ->
-  (forall c, nth c (weights ds) 0 <= 0) ->
-  divide fuel done ds avail = NoWeights.
-Proof. exact divide_no_weights. Qed.
-Print Assumptions C12_zero_weights_raise.
-
 (* The weight generator: every next() returns (within gen_fuel micro-steps)
    from every reachable state. *)
 Theorem C12_generator_next_total : forall g, ginv g ->
@@ -127,6 +53,76 @@ Proof.
 Qed.
 Print Assumptions C12_generator_next_total.
 
+(* 'too small' exactly when the minimums do not fit (any fuel, any weights). *)
+Theorem C12_too_small : forall fuel done ds avail,
+  Forall valid ds ->
+  (divide fuel done ds avail = TooSmall <-> ds <> [] /\ zsum (mins ds) > avail).
+Proof. exact divide_too_small_iff. Qed.
+Print Assumptions C12_too_small.
+
+(* TERMINATION, for all child lists, all weights >= 0 (zero included), all
+   available sizes: within divide_fuel ds avail = n((D+((D+1)W+3))W+1)+1
+   iterations per loop (D = max(0,avail), W = max(1, weights), n children)
+   the division answers 'too small' or sizes - never out of fuel, never an
+   exception. *)
+Theorem C12_terminates : forall done ds avail fuel,
+  Forall valid ds -> (divide_fuel ds avail <= fuel)%nat ->
+  (divide fuel done ds avail = TooSmall /\ ds <> [] /\ zsum (mins ds) > avail) \/
+  exists l, divide fuel done ds avail = Sizes l.
+Proof.
+  intros done ds avail fuel Hv Hf.
+  destruct (divide_total done ds avail fuel Hv Hf) as [H|(l & H & _)]; [left; exact H|right; eauto].
+Qed.
+Print Assumptions C12_terminates.
+
+(* The sizes: one per child, each within its own min..max, total within the
+   available size.  Children with weight 0 take no part in growing and keep
+   their minimum ([le_all l (tgts ...)]).  Preferred before extra: if the
+   preferred sizes of the weighted children fit, each of them has at least
+   its preferred size; if they do not fit, nobody gets more than preferred.
+   Maximal use: the total is exactly min(avail, sum of max, reach_max)
+   (when the app is done only the first loop runs: min(avail, sum of
+   preferred, reach_pref)). *)
+Theorem C12_sizes : forall fuel done ds avail l,
+  Forall valid ds -> (divide_fuel ds avail <= fuel)%nat -> ds <> [] ->
+  divide fuel done ds avail = Sizes l ->
+  zsum (mins ds) <= avail /\
+  length l = length ds /\
+  le_all (mins ds) l /\ le_all l (maxs ds) /\
+  zsum l <= avail /\
+  le_all l (tgts (weights ds) (maxs ds) (mins ds)) /\
+  (reach_pref ds <= avail -> le_all (tgts (weights ds) (prefs ds) (mins ds)) l) /\
+  (avail <= reach_pref ds -> le_all l (prefs ds)) /\
+  (done = false -> zsum l = Z.min (Z.min avail (zsum (maxs ds))) (reach_max ds)) /\
+  (done = true -> zsum l = Z.min (Z.min avail (zsum (prefs ds))) (reach_pref ds)).
+Proof.
+  intros fuel done ds avail l Hv Hf Hne Hd.
+  destruct (divide_sizes_good fuel done ds avail l Hv Hf Hne Hd). repeat split; assumption.
+Qed.
+Print Assumptions C12_sizes.
+
+(* with only positive weights this is the unrelaxed reading of the property:
+   every child reaches preferred when the preferred sizes fit, and the total
+   is min(avail, sum of max) *)
+Theorem C12_sizes_all_weighted : forall fuel ds avail l,
+  Forall valid ds -> (divide_fuel ds avail <= fuel)%nat -> ds <> [] ->
+  (forall c, (c < length ds)%nat -> 0 < nth c (weights ds) 0) ->
+  divide fuel false ds avail = Sizes l ->
+  (zsum (prefs ds) <= avail -> le_all (prefs ds) l) /\
+  zsum l = Z.min avail (zsum (maxs ds)).
+Proof. exact divide_all_weighted. Qed.
+Print Assumptions C12_sizes_all_weighted.
+
+Example C12_example :
+  divide (divide_fuel [mkdim 1 3 2 1; mkdim 0 HUGE 1 2; mkdim 2 2 2 0] 12) false
+         [mkdim 1 3 2 1; mkdim 0 HUGE 1 2; mkdim 2 2 2 0] 12 = Sizes [3; 7; 2] /\
+  (* the input on which the pinned function hung (DESIGN F4) *)
+  divide (divide_fuel f4_dims 10) false f4_dims 10 = Sizes [0; 0] /\
+  (* the input on which it raised ValueError *)
+  divide (divide_fuel [mkdim 1 1 1 0] 10) false [mkdim 1 1 1 0] 10 = Sizes [1].
+Proof. repeat split; vm_compute; reflexivity. Qed.
+Print Assumptions C12_example.
+
 (* HSplit/VSplit run that division on _all_children (HSplit answers [] for
    no children before looking at the padding windows; VSplit ignores
    is_done). *)
@@ -134,7 +130,7 @@ Theorem C12_split_divide : forall fuel orient done align pad cs avail,
   split_divide fuel orient done align pad cs avail =
   if (orient =? 0) && (match cs with [] => true | _ => false end) then Sizes []
   else divide fuel (if orient =? 0 then done else false) (all_children align pad cs) avail.
-Proof. exact split_divide_eq. Qed.
+Proof. intros. apply split_divide_eq. Qed.
 Print Assumptions C12_split_divide.
 
 (* Regions: child k is drawn at offset start + (sum of the sizes before it)
@@ -157,20 +153,62 @@ Theorem C12_draw : forall orient cs nall l start avail,
 Proof. exact draw_sizes. Qed.
 Print Assumptions C12_draw.
 
-(* After fixes/C12-zero-weight-children.patch (Model divide_fixed: without a
-   weighted child everybody keeps the minimum; the stops are capped by what
-   the weighted children can absorb) the division returns for ALL valid
-   inputs within the same fuel: 'too small' iff the minimums do not fit,
-   otherwise sizes within min..max and within the available size. *)
-Theorem C12_fixed_terminates : forall done ds avail fuel,
-  Forall valid ds -> (divide_fuel ds avail <= fuel)%nat ->
-  (divide_fixed fuel done ds avail = TooSmall /\ ds <> [] /\ zsum (mins ds) > avail) \/
-  exists l, divide_fixed fuel done ds avail = Sizes l /\
-    (ds <> [] -> zsum (mins ds) <= avail /\ length l = length ds /\
-                 le_all (mins ds) l /\ le_all l (maxs ds) /\ zsum l <= avail).
+(* ------------------------------------------------------------------ *)
+(* The function before the fix (divide_pinned): where exactly it hung. *)
+
+(* whenever it returned sizes they were right (for any item stream) *)
+Theorem C12_sizes_pinned : forall fuel done ds avail l,
+  ds <> [] -> Forall valid ds -> divide_pinned fuel done ds avail = Sizes l ->
+  length l = length ds /\
+  le_all (mins ds) l /\ le_all l (maxs ds) /\
+  zsum l <= avail /\
+  (zsum (prefs ds) <= avail -> le_all (prefs ds) l) /\
+  (avail <= zsum (prefs ds) -> le_all l (prefs ds)) /\
+  (done = false -> zsum l = Z.min avail (zsum (maxs ds))) /\
+  (done = true -> zsum l = Z.max (zsum (mins ds)) (Z.min avail (zsum (prefs ds)))).
 Proof.
-  intros done ds avail fuel Hv Hf.
-  destruct (divide_fixed_total done ds avail fuel Hv Hf) as [H|(l & H1 & _ & H2)]; [left; exact H|].
-  right. exists l. split; assumption.
+  intros fuel done ds avail l H1 H2 H3.
+  destruct (divide_good fuel done ds avail l H1 H2 H3); repeat split; assumption.
 Qed.
-Print Assumptions C12_fixed_terminates.
+Print Assumptions C12_sizes_pinned.
+
+(* it returned within divide_fuel on these inputs ... *)
+Theorem C12_terminates_on_domain_pinned : forall done ds avail fuel,
+  Forall valid ds ->
+  Z.min avail (zsum (prefs ds)) <= reach_pref ds ->
+  (done = true \/ Z.min avail (zsum (maxs ds)) <= reach_max ds) ->
+  (divide_fuel ds avail <= fuel)%nat ->
+  divide_pinned fuel done ds avail <> OutOfFuel.
+Proof. intros done ds avail fuel H1 H2 H3 H4. apply divide_terminates; [assumption|split; assumption|assumption]. Qed.
+Print Assumptions C12_terminates_on_domain_pinned.
+
+(* ... and on every other input with fitting minimums and a weighted child it
+   never returned, whatever the fuel. *)
+Theorem C12_hangs_outside_domain_pinned : forall done ds avail,
+  Forall valid ds -> zsum (mins ds) <= avail ->
+  (exists c, 0 < nth c (weights ds) 0) ->
+  ~ (Z.min avail (zsum (prefs ds)) <= reach_pref ds /\
+     (done = true \/ Z.min avail (zsum (maxs ds)) <= reach_max ds)) ->
+  forall fuel, divide_pinned fuel done ds avail = OutOfFuel.
+Proof. exact divide_hangs. Qed.
+Print Assumptions C12_hangs_outside_domain_pinned.
+
+(* so "dividing terminates for weights including zero" was false (fixed
+   finding, DESIGN F4): HSplit([Window(height=D(min=0,max=5,preferred=5,
+   weight=0)), Window(height=D(min=0,max=0,preferred=0,weight=1))]) at
+   height 10 *)
+Theorem C12_terminates_pinned_refuted :
+  ~ (forall ds avail, Forall valid ds -> exists fuel, divide_pinned fuel false ds avail <> OutOfFuel).
+Proof.
+  intro H. destruct divide_f4_hangs as (Hv & Hh).
+  destruct (H f4_dims 10 Hv) as (fuel & Hf). apply Hf. apply Hh.
+Qed.
+Print Assumptions C12_terminates_pinned_refuted.
+
+(* and with only weight-0 children it raised instead of returning sizes *)
+Theorem C12_zero_weights_raise_pinned : forall fuel done ds avail,
+  Forall valid ds -> ds <> [] -> zsum (mins ds) <= avail ->
+  (forall c, nth c (weights ds) 0 <= 0) ->
+  divide_pinned fuel done ds avail = NoWeights.
+Proof. exact divide_no_weights. Qed.
+Print Assumptions C12_zero_weights_raise_pinned.
